@@ -138,7 +138,12 @@ func runStr(c *hx.Ctx, r *hx.Rng, st *state) bool {
 	coder := encoding.GetStringCoder()
 	coder.SetEncodingType(ty)
 	ctx.SetStringCoder(coder)
-	defer ctx.Release()
+	// the coder goes back to a process-wide pool: leave it as a fresh one (type 0 = "take the
+	// configured algorithm"), or the column builder of a later case inherits this case's type
+	defer func() {
+		coder.SetEncodingType(0)
+		ctx.Release()
+	}()
 	pos := 0
 	if r.Chance(25) {
 		pos = 1 + r.Intn(30)
